@@ -537,6 +537,11 @@ class Engine:
                     except Unsupported as u:
                         ctx.undecided("ensures", lbl, str(u))
                         continue
+                    except (KeyError, IndexError) as u:
+                        # the clause itself cannot be evaluated (it subscripts a literal table with a key that is not there): that is a
+                        # fault of the clause, never a reason to drop it silently with the path
+                        ctx.undecided("ensures", lbl, f"the clause cannot be evaluated: {type(u).__name__}: {u}")
+                        continue
                     saved_pc = list(ctx.pc)
                     ctx.oblige("ensures", lbl, g, top=True, info={"clause": e})
                     ctx.pc = saved_pc       # ensures clauses are proved independently of each other
